@@ -110,6 +110,39 @@ func checkC16(c *Ctx) {
 
 	// ---------------- R2
 	resub := p.Func(configPkg, "(*svcDiscoveryClient).resubscribe")
+	// snapshot and flush may both sit in a helper that resubscribe calls (it then holds the lock for both)
+	resubOrig := resub
+	if resub != nil {
+		rangesSet := func(f *ssa.Function) bool {
+			found := false
+			eachInstr(f, func(_ *ssa.BasicBlock, _ int, in ssa.Instruction) {
+				if r, ok := in.(*ssa.Range); ok {
+					if fld, _ := loadedField(r.X); fld == subF {
+						found = true
+					}
+				}
+			})
+			return found
+		}
+		drainsAny := func(f *ssa.Function) bool {
+			found := false
+			eachInstr(f, func(_ *ssa.BasicBlock, _ int, in ssa.Instruction) {
+				if call, ok := in.(*ssa.Call); ok {
+					if g := calleeFn(call.Common()); g != nil && isModFn(g) && (drainsQueue(p, g, subCh) || drainsQueue(p, g, unsubCh)) {
+						found = true
+					}
+				}
+			})
+			return found
+		}
+		if !rangesSet(resub) && !drainsAny(resub) {
+			for _, g := range staticCalleesDeep(resub, 1) {
+				if g.Blocks != nil && isModFn(g) && rangesSet(g) && drainsAny(g) {
+					resub = g
+				}
+			}
+		}
+	}
 	if resub == nil {
 		c.Unresolved("R2", "(*svcDiscoveryClient).resubscribe")
 	} else {
@@ -201,20 +234,35 @@ func checkC16(c *Ctx) {
 			continue
 		}
 		var upd ssa.Instruction
-		eachInstr(fn, func(_ *ssa.BasicBlock, _ int, in ssa.Instruction) {
-			switch x := in.(type) {
-			case *ssa.MapUpdate:
-				if f, _ := loadedField(x.Map); f == subF {
-					upd = in
+		updatesSet := func(f *ssa.Function) ssa.Instruction {
+			var at ssa.Instruction
+			eachInstr(f, func(_ *ssa.BasicBlock, _ int, in ssa.Instruction) {
+				switch x := in.(type) {
+				case *ssa.MapUpdate:
+					if fld, _ := loadedField(x.Map); fld == subF {
+						at = in
+					}
+				case *ssa.Call:
+					if isBuiltin(x, "delete") {
+						if fld, _ := loadedField(x.Call.Args[0]); fld == subF {
+							at = in
+						}
+					}
 				}
-			case *ssa.Call:
-				if isBuiltin(x, "delete") {
-					if f, _ := loadedField(x.Call.Args[0]); f == subF {
+			})
+			return at
+		}
+		upd = updatesSet(fn)
+		if upd == nil {
+			// the update in a helper of the same client: the call of the helper is the update site
+			eachInstr(fn, func(_ *ssa.BasicBlock, _ int, in ssa.Instruction) {
+				if call, ok := in.(*ssa.Call); ok {
+					if g := calleeFn(call.Common()); g != nil && isModFn(g) && g.Blocks != nil && g != fn && updatesSet(g) != nil {
 						upd = in
 					}
 				}
-			}
-		})
+			})
+		}
 		var enq *chanOp
 		for _, fn2 := range append([]*ssa.Function{fn}, calleesIn(p, fn)...) {
 			for _, op := range p.chanOpsOnField(pr.q) {
@@ -328,6 +376,7 @@ func checkC16(c *Ctx) {
 	}
 
 	// ---------------- R5
+	resub = resubOrig
 	if resub != nil {
 		okSnap := false
 		eachInstr(resub, func(_ *ssa.BasicBlock, _ int, in ssa.Instruction) {
